@@ -259,6 +259,11 @@ func c15Pipeline(r *fw.Rand, depth int) string {
 			qs = "X is .Individuals | Only(.Name | X | .String = \"a\"); X | " + qs
 		case 0:
 			qs = "X is " + qs + "; X"
+			// a variable named like the ones the engine defines for the documents
+			if r.Chance(1, 3) {
+				v := []string{"Document1", "Document2", "Document3", "Document0", "Document"}[r.Intn(5)]
+				qs = v + " " + []string{"is", "are"}[r.Intn(2)] + " " + []string{".Individuals", ".Families", v, "Document1", "Document2 | .Individuals"}[r.Intn(5)] + "; " + []string{v, v + " | Length", "Document1 | .Individuals", "Document2", "?"}[r.Intn(5)]
+			}
 		case 1:
 			qs = "X is " + qs + "; Y is X | Length; Y"
 		case 2:
